@@ -44,6 +44,9 @@ pub enum TIns {
     Compare { dim: [i8; 3], seed: u32 },
     Print { dim: [i8; 3], seed: u32 },
     Assert { dim: [i8; 3], seed: u32 },
+    /// redefinition of an existing global at a different dimension, then a function whose
+    /// body reads the global (every name refers to its innermost definition)
+    Redefine { var: u16, dim: [i8; 3], seed: u32 },
 }
 
 pub fn tins_strategy() -> impl Strategy<Value = TIns> {
@@ -58,6 +61,7 @@ pub fn tins_strategy() -> impl Strategy<Value = TIns> {
         3 => (dim(), any::<u32>()).prop_map(|(dim, seed)| TIns::Compare { dim, seed }),
         2 => (dim(), any::<u32>()).prop_map(|(dim, seed)| TIns::Print { dim, seed }),
         1 => (dim(), any::<u32>()).prop_map(|(dim, seed)| TIns::Assert { dim, seed }),
+        2 => (any::<u16>(), dim(), any::<u32>()).prop_map(|(var, dim, seed)| TIns::Redefine { var, dim, seed }),
     ]
 }
 
@@ -108,6 +112,8 @@ pub struct Features {
     pub generic_instantiations: usize,
     pub struct_or_list: bool,
     pub derived_dimension: bool,
+    pub redefinition: bool,
+    pub zero_exponent: bool,
     /// known-finding classes that were generated
     pub inexact_float_exponent: bool,
     pub polymorphic_literal: bool,
@@ -435,6 +441,17 @@ impl<'a> Gen<'a> {
                 // value_of / unit_of round trip, or times a dimensionless ratio
                 let d = self.random_vec(r);
                 let a = self.expr_inner(v, r, depth - 1);
+                if r.chance(1, 3) {
+                    // a zeroth power: dimensionless whatever the base is
+                    self.features.zero_exponent = true;
+                    let x = self.expr_inner(&d, r, depth - 1);
+                    let zero = ["^0", "^(3 - 3)", "^(0/2)"][r.below(3)];
+                    return match r.below(3) {
+                        0 => format!("({a} * ({x}){zero})"),
+                        1 => format!("({a} * (({x}){zero} + 1))"),
+                        _ => format!("(if ({x}){zero} == 1 then {a} else {a})"),
+                    };
+                }
                 let x = self.expr_inner(&d, r, depth - 1);
                 let y = self.expr_inner(&d, r, depth - 1);
                 let y = self.site(y);
@@ -639,6 +656,34 @@ impl<'a> Gen<'a> {
                 let a = self.expr_inner(&v, &mut r, 1);
                 let b = self.site(a.clone());
                 vec![Stmt { text: format!("assert_eq({a}, {b})"), defines: vec![], dim: None, prints: 0 }]
+            }
+            TIns::Redefine { var, dim, seed } => {
+                let globals: Vec<(String, DimVec)> = self.vars.iter().filter(|(n, _)| n.starts_with("q_")).cloned().collect();
+                if globals.is_empty() {
+                    return self.render(&TIns::Let { dim: *dim, half: 0, seed: *seed, annotate: 1 });
+                }
+                let (name, old) = globals[crate::gen_util::pick_idx(*var, globals.len())].clone();
+                let mut v = vec_of(*dim, 0);
+                if v == old {
+                    v = v.mul(&DimVec::single("Length"));
+                }
+                let mut r = Rng(*seed as u64);
+                // the new value may mention the old one
+                let e = self.expr_inner(&v, &mut r, 2);
+                self.vars.retain(|(n, _)| n != &name);
+                self.vars.push((name.clone(), v.clone()));
+                self.features.redefinition = true;
+                let f = self.fresh("rf");
+                let q = self.fresh("q");
+                let ann = self.annotation_inner(&v, &mut r);
+                let k = 2 + r.below(7);
+                self.vars.push((q.clone(), v.clone()));
+                let body = self.site(format!("kk_param * {name}"));
+                vec![
+                    Stmt { text: format!("let {name} = {e}"), defines: vec![(name.clone(), Some(v.clone()))], dim: Some(v.clone()), prints: 0 },
+                    Stmt { text: format!("fn {f}(kk_param: Scalar) -> {ann} = {body}"), defines: vec![(f.clone(), None)], dim: None, prints: 0 },
+                    Stmt { text: format!("let {q} = {f}({k})"), defines: vec![(q, Some(v.clone()))], dim: Some(v), prints: 0 },
+                ]
             }
         }
     }
